@@ -2,9 +2,10 @@
   GIV.Model.Fsx — executable model for property C15:
 
   * `cleanPath`   = path/filepath.Clean for Unix paths (separator '/', no volume names), written as the
-                    component-stack algorithm (split at '/', fold, join).  Go runs a byte loop over a lazy
-                    buffer; that both agree is what the correspondence run establishes (exhaustive over a
-                    segment alphabet + random byte strings against the real filepath.Clean).
+                    component-stack algorithm (split at '/', fold, join), and `cleanBytes`, the transcription
+                    of Go's byte loop (lazy buffer replaced by a plain one).  GIV/Lemmas/FsxCleanBytes.lean
+                    proves them equal; the correspondence run compares both with the real filepath.Clean
+                    (exhaustive over a segment alphabet + random byte strings).
   * `FS`          = abstract file system: finite map (association list, first binding wins) from a
                     normalised absolute path (list of components, `[]` = "/") to directory | file+content.
                     `mkdirAll` (os.MkdirAll), `openFile` (open(2) with O_CREAT/O_EXCL/O_TRUNC), `writeData`.
@@ -72,6 +73,47 @@ def cleanPath (p : Bytes) : Bytes :=
   else
     let out := (cleanComps false [] (splitSep p)).reverse
     if out = [] then dotB else joinSep out
+
+/-! ### filepath.Clean, byte loop
+
+The same function as Go writes it (internal/filepathlite.Clean with the lazy buffer replaced by a plain
+one, kept reversed: last written byte first).  `GIV/Lemmas/FsxCleanBytes.lean` proves it equal to `cleanPath`. -/
+
+/-- `out.w--; for out.w > dotdot && !IsPathSeparator(out.index(out.w)) { out.w-- }` -/
+def backtrack (dotdot : Nat) : Bytes → Bytes
+  | [] => []
+  | x :: ro => if dotdot < ro.length ∧ x ≠ SEP then backtrack dotdot ro else ro
+
+/-- `for ; r < n && !IsPathSeparator(path[r]); r++ { out.append(path[r]) }`: `(unread input, buffer)`. -/
+def copyElem : Bytes → Bytes → Bytes × Bytes
+  | [], ro => ([], ro)
+  | b :: rest, ro => if b = SEP then (b :: rest, ro) else copyElem rest (b :: ro)
+
+/-- the `for r < n` loop; `fuel` bounds the number of iterations (each consumes at least one byte). -/
+def cleanLoop (rooted : Bool) : Nat → Bytes → Bytes → Nat → Bytes
+  | 0, _, ro, _ => ro
+  | _ + 1, [], ro, _ => ro
+  | fuel + 1, b :: t, ro, dd =>
+    if b = SEP then cleanLoop rooted fuel t ro dd                                  -- empty path element
+    else if b = DOT ∧ (t = [] ∨ t.head? = some SEP) then cleanLoop rooted fuel t ro dd   -- . element
+    else if b = DOT ∧ t.head? = some DOT ∧ (t.tail = [] ∨ t.tail.head? = some SEP) then   -- .. element
+      if dd < ro.length then cleanLoop rooted fuel t.tail (backtrack dd ro) dd      -- can backtrack
+      else if rooted = false then                                                   -- cannot backtrack, not rooted
+        let ro2 := DOT :: DOT :: (if 0 < ro.length then SEP :: ro else ro)
+        cleanLoop rooted fuel t.tail ro2 ro2.length
+      else cleanLoop rooted fuel t.tail ro dd
+    else                                                                            -- real path element
+      let ro1 := if (rooted = true ∧ ro.length ≠ 1) ∨ (rooted = false ∧ ro.length ≠ 0) then SEP :: ro else ro
+      let r := copyElem (b :: t) ro1
+      cleanLoop rooted fuel r.1 r.2 dd
+
+/-- `filepath.Clean(p)`, byte loop. -/
+def cleanBytes (p : Bytes) : Bytes :=
+  if p = [] then [DOT] else
+  let ro :=
+    if p.head? = some SEP then cleanLoop true (p.length + 1) p.tail [SEP] 1
+    else cleanLoop false (p.length + 1) p [] 0
+  if ro = [] then [DOT] else ro.reverse
 
 /-! ### abstract file system -/
 
